@@ -60,12 +60,13 @@ def run(chk):
                 "up; (R4) the universe is the declared tickers present in the data (all when none declared) plus one column per sub-strategy, published on every update.")
     check_equiv(chk, "C19.R1", CORE, "Node", "__init__", NODE_INIT_REF, "node-construction",
                 "a node without a parent is its own parent and root (integer positions by default); with a parent it is attached to it (not copied); declared children are attached as copies",
-                no_inline=("_add_children",))
+                no_inline=("_add_children",), ignore_fields=("_original_children_are_present",))
+    tree_rules.declared_children_flag(chk)
     check_equiv(chk, "C19.R1", CORE, "Strategy", "__init__", STRATEGY_INIT_REF, "strategy-construction", "a Strategy passes children and parent on, builds its stack and starts with empty temp and perm",
                 no_inline=("__init__",))
     tree_rules.add_children_rules(chk, "C19")
-    core_rules.recursion_rules(chk, "C19", [("Node", "_set_root", "root", False), ("Node", "use_integer_positions", "integer_positions", False),
-                                            ("StrategyBase", "set_commissions", "commission_fn", True)])
+    # the root push-down is a private helper: it is found (and checked for completeness) where _add_children hands self.root to the child
+    core_rules.recursion_rules(chk, "C19", [("Node", "use_integer_positions", "integer_positions", False), ("StrategyBase", "set_commissions", "commission_fn", True)])
     tree_rules.settings_pushed_at_construction(chk, "C19")
     tree_rules.lazy_child_rules(chk, "C19")
     core_rules.strategy_allocate_rules(chk, "C19")
